@@ -30,7 +30,7 @@ func TestVerifC06(t *testing.T) {
 		Assumptions: []string{"the reference codec (harness/common_ref.go, written from the draft and OpenSSH PROTOCOL) is the spec oracle"},
 		Units: func(tier vfTier, seed uint64) int {
 			if tier == vfThorough {
-				return 400
+				return 6000
 			}
 			return 16
 		},
